@@ -132,6 +132,20 @@ func checkFile(run *ev.Run, name string, raw []byte) {
 			run.Violate("id_mismatch;"+ent, ent+": config ID differs from the origin's ID", -1, d)
 		}
 		feederIDs = append(feederIDs, cl.ID)
+		// the witness map's entry for this ID must describe THIS entry: its origin and its key
+		if err == nil {
+			info, ok := m[cl.ID]
+			switch {
+			case !ok:
+				run.Violate("witness_map_lacks_entry;"+ent, ent+": the witness map has no entry under this entry's ID", -1, d)
+			case info.Origin != l.Origin:
+				d["witness_map_origin"] = info.Origin
+				run.Violate("witness_map_origin_differs;"+ent, fmt.Sprintf("%s: the witness map files this ID with origin %q", ent, info.Origin), -1, d)
+			case info.SigV == nil || info.SigV.Name() != cl.Verifier.Name() || info.SigV.KeyHash() != cl.Verifier.KeyHash():
+				run.Violate("witness_map_key_differs;"+ent, ent+": the witness map verifies this ID with another key than the entry's", -1, d)
+			}
+			run.Count("witness_map_entries_compared")
+		}
 		if l.Origin == "" || strings.Contains(l.Origin, "\n") {
 			run.Violate("bad_origin;"+ent, ent+": origin empty or multi-line", -1, d)
 		}
